@@ -305,3 +305,13 @@ Theorem C14_kernel_mostCommonGetDataSegmentSize :
 Proof. exact go_EntryHeaders_mostCommonGetDataSegmentSize_tie. Qed.
 Print Assumptions C14_kernel_mostCommonGetDataSegmentSize.
 
+
+(* ---- format constants ----
+   The models take their format constants from Gen/Consts.v, which is regenerated from /repo's
+   source on every run; Spec/ConstPins.v (committed, written by bin/mkpins) pins every one of them
+   to the value the specifications give it.  A constant that drifts in the Go source breaks this
+   theorem instead of being silently followed by model and generator. *)
+From Fiano Require Spec.ConstPins.
+Theorem C14_format_constants_pinned : Spec.ConstPins.pinned_c14.
+Proof. exact Spec.ConstPins.pins_c14. Qed.
+Print Assumptions C14_format_constants_pinned.
